@@ -139,6 +139,8 @@ def eval_case(case):
         bad('base-exception', 'decoder raised %s (not an ordinary Exception)' % type(e).__name__)
         return out
     LAST['outcome'] = r['kind'] + (':' + r['type'] if r['kind'] == 'exc' else '')
+    if r['kind'] == 'doc' and any(isinstance(v, dict) and 'Error' in v for v in r['doc'].values()):
+        LAST['outcome'] = 'doc:error-note'          # a section's parser failed and was contained: its own path to the output
     if r['kind'] == 'badjson':
         bad('not-json', 'decoder returned text that is not JSON: %s' % r['msg'])
     if r['index'] > len(data):
@@ -169,6 +171,23 @@ def _cli(case, data, base, bad):
             return
         if r.status not in (0, 1):
             bad('cli-exit', 'exit status %r' % r.status)
+        # "either yields a JSON document or fails with an ordinary error": what the decoder yields for these bytes is what
+        # the command line shows, on standard output
+        try:
+            core.arm()
+            lib = decode.parse(data)
+            core.disarm()
+        except BaseException:
+            core.disarm()
+            lib = {'kind': 'exc'}
+        if lib['kind'] == 'doc':
+            try:
+                same = strictjson.loads(r.stdout) == lib['doc']
+            except Exception:
+                same = False
+            if not same:
+                bad('cli-document-not-shown', 'the decoder yields a document for these bytes, standard output holds %r (status %r, %d bytes on stderr)'
+                    % (r.stdout[:60], r.status, len(r.stderr)))
         if r.stdout.strip():
             try:
                 strictjson.loads(r.stdout)
@@ -273,7 +292,7 @@ def _run(res, chunk, k, opt):
                 # the command line has its own error handling: hand it every class of failure this chunk produces
                 # (the first three inputs of each outcome class), not only the strided sample of the 'cli' chunk
                 oc = LAST['outcome'] or ''
-                if oc.startswith('exc:') or oc == 'empty':
+                if oc.startswith('exc:') or oc in ('empty', 'doc:error-note'):
                     seen[oc] = seen.get(oc, 0) + 1
                     if seen[oc] <= 3:
                         _do(res, {'base': bi, 'dev': ['set', off, v], 'opt': opt, 'cli': True})
